@@ -242,10 +242,10 @@ func generate(r *lib.Run) []string {
 	g := &gen{r: r, seen: map[string]bool{}}
 	shapes := allShapes()
 	pick := shapes
-	var core map[string]bool
+	// the core shapes get every crash point of every family; the others a sample of crash points
+	core := map[string]bool{"m0d0": true, "m1d0": true, "m7d12": true, "m0d10": true, "m1d4": true, "m3d7": true}
 	if !r.Thorough() {
-		// a fixed core plus a seeded sample
-		core = map[string]bool{"m0d0": true, "m1d0": true, "m7d12": true, "m0d10": true, "m1d4": true, "m3d7": true}
+		// the core plus a seeded sample of the other shapes
 		pick = nil
 		for _, s := range shapes {
 			if core[s.name] || r.Rng.Chance(2) {
@@ -253,14 +253,18 @@ func generate(r *lib.Run) []string {
 			}
 		}
 	} else {
+		// every shape (all parent-closed subsets of the atom tree), both modes
+		for _, n := range []string{"m2d5", "m5d9", "m6d3", "m4d12", "m7d1", "m3d11"} {
+			core[n] = true
+		}
 		r.Exhaust = true
 	}
 	for _, s := range pick {
 		for _, mode := range []string{"u", "c"} {
 			// same tree stored twice (the realistic re-store: same key, same content) and a different old tree
-			g.family(mode, s.outs, s.tree, s.tree, r.Thorough())
+			g.family(mode, s.outs, s.tree, s.tree, r.Thorough() && core[s.name])
 			other := shapes[r.Rng.Intn(len(shapes))]
-			if core == nil || core[s.name] || r.Rng.Chance(30) {
+			if core[s.name] || r.Rng.Chance(30) {
 				g.family(mode, s.outs, other.tree, s.tree, false)
 			}
 		}
@@ -276,7 +280,7 @@ func generate(r *lib.Run) []string {
 		g.family(mode, []string{"d/y", "d/x"}, d, d, false)
 	}
 	// random larger trees with adversarial names
-	for i := 0; i < r.N(12, 150); i++ {
+	for i := 0; i < r.N(12, 60); i++ {
 		t1 := randomTree(r.Rng)
 		t0 := t1
 		if r.Rng.Chance(40) {
